@@ -4,6 +4,7 @@ C06 — allocation lifetime, refresh and deletion are exact.
 import TurnModel.Lemmas.ServerInv
 import TurnModel.Lemmas.ServerUniq
 import TurnModel.Lemmas.ServerHandlers
+import TurnModel.Gen.Consts
 namespace Turn.C06
 open Turn.Srv
 
@@ -181,5 +182,12 @@ example : (run cfg0 init [alloc2s, .adv (2 * sec)]).1.allocs.length = 0 := by de
 set_option maxRecDepth 8000 in
 example : (run cfg0 init [alloc2s, .msg k0 100 (.refresh 2 okCred (.val 0) .absent)]).1.allocs.length = 0 := by decide
 example : lifetimeOf cfg0 (.val 3600) = 600 * sec ∧ lifetimeOf cfg0 (.val 3599) = 3599 * sec := by decide
+
+
+/-- regenerated: the maximum requestable lifetime in today's source is one hour ("below one hour") and the
+    default lifetime NewServer applies is the documented 10 minutes -/
+theorem max_lifetime_regenerated :
+    Gen.Consts.server_maximumAllocationLifetime = 3600 * 1000000000 ∧ Gen.Consts.default_allocationLifetime = 600 * 1000000000 := by
+  decide
 
 end Turn.C06
